@@ -370,7 +370,7 @@ def initialize():
             f_type="integer(C_SHORT)",
             f_kind="C_SHORT",
             f_module=dict(iso_c_binding=["C_SHORT"]),
-            PY_format="h",
+            PY_format="H",
             PY_ctor="PyInt_FromLong({ctor_expr})",
             PY_get="PyInt_AsLong({py_var})",
             PYN_typenum="NPY_SHORT",
@@ -388,7 +388,7 @@ def initialize():
             f_type="integer(C_INT)",
             f_kind="C_INT",
             f_module=dict(iso_c_binding=["C_INT"]),
-            PY_format="i",
+            PY_format="I",
             PY_ctor="PyInt_FromLong({ctor_expr})",
             PY_get="PyInt_AsLong({py_var})",
             PYN_typenum="NPY_INT",
@@ -406,7 +406,7 @@ def initialize():
             f_type="integer(C_LONG)",
             f_kind="C_LONG",
             f_module=dict(iso_c_binding=["C_LONG"]),
-            PY_format="l",
+            PY_format="k",
             PY_ctor="PyInt_FromLong({ctor_expr})",
             PY_get="PyInt_AsLong({py_var})",
             PYN_typenum="NPY_LONG",
@@ -424,7 +424,7 @@ def initialize():
             f_type="integer(C_LONG_LONG)",
             f_kind="C_LONG_LONG",
             f_module=dict(iso_c_binding=["C_LONG_LONG"]),
-            PY_format="L",
+            PY_format="K",
             # #- PY_ctor='PyInt_FromLong({ctor_expr})',
             PYN_typenum="NPY_LONGLONG",
             LUA_type="LUA_TNUMBER",
@@ -462,7 +462,7 @@ def initialize():
             f_type="integer(C_INT8_T)",
             f_kind="C_INT8_T",
             f_module=dict(iso_c_binding=["C_INT8_T"]),
-            PY_format="i",
+            PY_format="b",
             PY_ctor="PyInt_FromLong({ctor_expr})",
             PY_get="PyInt_AsLong({py_var})",
             PYN_typenum="NPY_INT8",
@@ -482,7 +482,7 @@ def initialize():
             f_type="integer(C_INT16_T)",
             f_kind="C_INT16_T",
             f_module=dict(iso_c_binding=["C_INT16_T"]),
-            PY_format="i",
+            PY_format="h",
             PY_ctor="PyInt_FromLong({ctor_expr})",
             PY_get="PyInt_AsLong({py_var})",
             PYN_typenum="NPY_INT16",
@@ -543,7 +543,7 @@ def initialize():
             f_type="integer(C_INT8_T)",
             f_kind="C_INT8_T",
             f_module=dict(iso_c_binding=["C_INT8_T"]),
-            PY_format="i",
+            PY_format="B",
             PY_ctor="PyInt_FromLong({ctor_expr})",
             PY_get="PyInt_AsLong({py_var})",
             PYN_typenum="NPY_UINT8",
@@ -563,7 +563,7 @@ def initialize():
             f_type="integer(C_INT16_T)",
             f_kind="C_INT16_T",
             f_module=dict(iso_c_binding=["C_INT16_T"]),
-            PY_format="i",
+            PY_format="H",
             PY_ctor="PyInt_FromLong({ctor_expr})",
             PY_get="PyInt_AsLong({py_var})",
             PYN_typenum="NPY_UINT16",
@@ -583,7 +583,7 @@ def initialize():
             f_type="integer(C_INT32_T)",
             f_kind="C_INT32_T",
             f_module=dict(iso_c_binding=["C_INT32_T"]),
-            PY_format="i",
+            PY_format="I",
             PY_ctor="PyInt_FromLong({ctor_expr})",
             PY_get="PyInt_AsLong({py_var})",
             PYN_typenum="NPY_UINT32",
@@ -603,7 +603,7 @@ def initialize():
             f_type="integer(C_INT64_T)",
             f_kind="C_INT64_T",
             f_module=dict(iso_c_binding=["C_INT64_T"]),
-            PY_format="L",
+            PY_format="K",
             PY_ctor="PyInt_FromLong({ctor_expr})",
             PY_get="PyInt_AsLong({py_var})",
             PYN_typenum="NPY_UINT64",
